@@ -20,6 +20,11 @@ class MatchMapping:
         self.forward: Mapping = forward_mapping
         self.reverse: ReverseMapping = {v: k for k, v in self.forward.items()}
 
+    def __eq__(self, other: object) -> bool:
+        if not isinstance(other, MatchMapping):
+            return False
+        return self.forward == other.forward
+
     def __json__(self) -> list:
         json_object: list = [{'index': k.__json__(), 'value': v.__json__()} for k, v in self.reverse.items()]
         return json_object
